@@ -58,6 +58,31 @@ def random_history(rnd, nk, nf, steps, families, fairs=('none', 'none', 'all', '
         f = gen.rand_ctl(rnd, 2) if lg == 'CTL' else ('A', gen.rand_path(rnd, 2, leaves=M0)) if lg == 'LTL' else gen.rand_ctls_state(rnd, 2, leaves=M0)
         if gen.temporal_count(f) <= 3 and gen.size(f) <= 10:
             fs.append({'logic': lg, 'f': f})
+    # restricted-alphabet formulas with recurring subformulas (the algorithms then work on the caller's own objects)
+    for pos in range(nf):
+        if rnd.random() < 0.3:
+            lg = rnd.choice(['CTL', 'CTL', 'LTL', 'CTLS'])
+            f = gen.rand_restricted(rnd, lg, 3, leaves=[P, Q])
+            if lg == 'LTL':
+                f = ('A', f)
+            elif lg == 'CTLS':
+                f = ('E', f)
+            if gen.temporal_count(f) <= 4 and gen.size(f) <= 14:
+                fs[pos] = {'logic': lg, 'f': f}
+    # boundary answers: formulas that hold everywhere / nowhere (their result is the whole state set or the empty set -
+    # the natural candidates for a result that is not a fresh object), at top level and under each operator shape
+    if rnd.random() < 0.6:
+        taut = rnd.choice([TR, ('or', P, ('not', P)), ('not', FA), ('imp', P, P)])
+        shapes = [lambda z: ('E', ('G', z)), lambda z: ('A', ('G', z)), lambda z: ('E', ('X', z)), lambda z: ('E', ('F', z)), lambda z: z,
+                  lambda z: ('E', ('U', z, z)), lambda z: ('not', z), lambda z: ('A', ('F', ('not', z))), lambda z: ('E', ('R', z, z)),
+                  lambda z: ('A', ('X', z)), lambda z: ('and', z, z), lambda z: ('E', ('G', ('not', z)))]
+        for pos in range(min(nf, rnd.choice([1, 2, 3]))):
+            lg = rnd.choice(['CTL', 'CTL', 'CTLS', 'LTL'])
+            sh = rnd.choice(shapes)
+            f = sh(taut)
+            if lg == 'LTL':
+                f = ('A', rnd.choice([('G', taut), ('F', taut), taut, ('not', taut), ('X', taut), ('U', taut, taut)]))
+            fs[nf - 1 - pos] = {'logic': lg, 'f': f}
     # twins: two different formulas that PRINT identically (an atom named like a subformula); the structure carries that
     # atom as an ordinary label, so the two have different answers
     if rnd.random() < 0.6:
@@ -102,7 +127,7 @@ def random_history(rnd, nk, nf, steps, families, fairs=('none', 'none', 'all', '
         elif r < 0.68:
             st.append({'op': 'badcall', 'k': rnd.randint(1, nk), 'b': rnd.randint(1, len(BAD)), 'fair': rnd.choice(fairs)})
         elif r < 0.9:
-            st.append({'op': 'mutate', 'r': rnd.choice(live), 'kind': rnd.choice(['clear', 'add', 'discard'])})
+            st.append({'op': 'mutate', 'r': rnd.choice(live), 'kind': rnd.choice(['clear', 'add', 'discard', 'swap', 'swap'])})
         else:
             x = rnd.choice(live)
             live.remove(x)
@@ -141,6 +166,23 @@ def run(ctx, c19=False):
         h['family'] = 'random history'
         h['seed'] = rnd.randrange(1 << 30)
         hists.append(h)
+    # short object-formula histories: one structure, three formulas of the restricted alphabets with recurring
+    # subformulas (no rewriting: the algorithms receive the caller's own objects), each called twice, no fairness
+    if not c19:
+        for _ in range(400 if q else 6000):
+            K = gen.rand_kripke(rnd, rnd.choice([2, 3, 4]))
+            fs = []
+            while len(fs) < 3:
+                lg = rnd.choice(['CTL', 'CTL', 'LTL', 'CTLS'])
+                f = gen.rand_restricted(rnd, lg, 3, leaves=[P, Q, P, Q, TR])
+                f = ('A', f) if lg == 'LTL' else ('E', f) if lg == 'CTLS' else f
+                if gen.temporal_count(f) <= 4 and 3 <= gen.size(f) <= 14:
+                    fs.append({'logic': lg, 'f': f})
+            steps = []
+            for r, j in enumerate([1, 2, 3, 1, 2, 3]):
+                steps.append({'op': 'call', 'k': 1, 'j': j, 'mode': 'obj', 'fair': 'none', 'r': r + 1})
+            hists.append({'ks': [K], 'fs': fs, 'steps': steps, 'family': 'short history, restricted formulas with recurring subformulas',
+                          'pres': [{'naming': rnd.choice(['int', 'str', 'obj']), 'shuf': rnd.randrange(1 << 30)}], 'seed': rnd.randrange(1 << 30)})
     events = finish(ctx, hists)
     for h in hists:
         calls = [(s['k'], s['j'], s['fair']) for s in h['steps'] if s['op'] == 'call']
